@@ -104,7 +104,8 @@ def rename_refs(sc, old, new):
 
 
 MUTATIONS = ["drop_state_field", "drop_scope_field", "rename_state", "retarget", "retag", "wrong_type", "dup_names",
-             "empty_object", "empty_branches", "drop_state", "junk_member", "end_false", "catcher", "timestamp", "two"]
+             "empty_object", "empty_branches", "drop_state", "junk_member", "end_false", "catcher", "timestamp", "two",
+             "numeric_field", "dangling_all"]
 
 
 def mutate(rng, m, op=None):
@@ -202,6 +203,37 @@ def mutate(rng, m, op=None):
             keep = {"End": True}
         sts[name] = dict({"Type": "Wait", rng.choice(["Timestamp", "Timestamp", "Seconds", "TimestampPath"]):
                           rng.choice(JUNK + ["2023-11-14T22:13:20Z", "2023-13-45T99:00:00Z", "Z", 1.5])}, **keep)
+    elif op == "numeric_field":
+        # fields that must be numbers (of a certain range) given something else: machine / state time limits, Map concurrency
+        vals = [-1, "60", 1.5, None, [1], {"a": 1}, True, 0, 10 ** 12]
+        maps = [s_ for s_ in sts.values() if isinstance(s_, dict) and s_.get("Type") == "Map"]
+        waits = [s_ for s_ in sts.values() if isinstance(s_, dict) and s_.get("Type") == "Wait" and "Seconds" in s_]
+        tasks = [s_ for s_ in sts.values() if isinstance(s_, dict) and s_.get("Type") == "Task"]
+        choice = rng.random()
+        if maps and choice < 0.35:
+            rng.choice(maps)["MaxConcurrency"] = rng.choice(vals)
+        elif tasks and choice < 0.55:
+            rng.choice(tasks)[rng.choice(["TimeoutSeconds", "HeartbeatSeconds"])] = rng.choice(vals)
+        elif waits and choice < 0.7:
+            rng.choice(waits)["Seconds"] = rng.choice(vals)
+        else:
+            m["TimeoutSeconds"] = rng.choice(vals)
+    elif op == "dangling_all":
+        # every branch of a Parallel state (or the iterator of a Map state) transitions to a state that does not exist
+        fans = [s_ for s_ in sts.values() if isinstance(s_, dict) and (isinstance(s_.get("Branches"), list) or "Iterator" in s_ or "ItemProcessor" in s_)]
+        if fans:
+            f = rng.choice(fans)
+            subs = list(f.get("Branches") or []) + [f[k] for k in ("Iterator", "ItemProcessor") if k in f]
+            for i, b_ in enumerate(subs):
+                if isinstance(b_, dict) and isinstance(b_.get("States"), dict) and b_.get("StartAt") in b_["States"]:
+                    first = b_["States"][b_["StartAt"]]
+                    if isinstance(first, dict) and first.get("Type") in ("Pass", "Task", "Wait"):
+                        first.pop("End", None)
+                        first["Next"] = "Nowhere%d" % i
+        else:
+            sts[name] = {"Type": "Parallel", "End": True, "Branches": [
+                {"StartAt": "DA", "States": {"DA": {"Type": "Pass", "Next": "Nowhere1"}}},
+                {"StartAt": "DB", "States": {"DB": {"Type": "Pass", "Next": "Nowhere2"}}}]}
     elif op == "junk_member":
         sts[rng.choice(["J", "", name + "j"])] = rng.choice(JUNK)
     elif op == "end_false":
@@ -330,6 +362,9 @@ def engine_case(definition=None, data=None, plans=None, raw=None, max_steps=1500
         res["waiting"] = (not quiescent and all(st[0] == "timer" for st in s.trace[-200:])
                           and bool(vol0 and vol0["pending"]))
         res["poison"] = view(s, ea) if ea else None
+        res["poison_terminal_notifications"] = sum(
+            1 for n in s.notifications if ea and n["body"] and n["body"].get("detail", {}).get("executionArn") == ea
+            and n["body"]["detail"].get("status") != "RUNNING")
         rec = s.record(ea) if ea else None
         res["cause"] = (rec or {}).get("cause")
         res["healthy"] = view(s, eh)
@@ -362,6 +397,9 @@ def judge(res, storable=True):
         bad.append("the healthy concurrent execution differs from its undisturbed run")
     if cj(res["after"]) != cj(base):
         bad.append("an execution started afterwards does not complete as usual")
+    hist = (res.get("poison") or {}).get("history") or []
+    if sum(1 for t in hist if t in ("ExecutionFailed", "ExecutionSucceeded")) > 1 or res.get("poison_terminal_notifications", 0) > 1:
+        bad.append("its own execution ends more than once")
     if res.get("waiting"):
         pass
     elif not res["quiescent"]:
